@@ -153,11 +153,32 @@ def install_mp(spec):
                     with counter.get_lock():
                         counter.value += 1
                     after()
+                    if spec.get("slow_out_states") and index % 3 == 0 and st["calls"] <= 8:
+                        time.sleep(0.16)     # a worker may be arbitrarily slow with an out-state computed in advance
                     return r
                 h.send_event_time, h.send_out_state = send_event_time, send_out_state
             wrap()
         return orig_start(self)
     mpm.MultiProcessMediator._start_processes = _start_processes
+    if spec.get("after_release_ms"):
+        # an admissible schedule: the worker is descheduled right after it has released the semaphore (i.e. after its
+        # candidate time was sent) for a seeded time
+        real_sem = multiprocessing.BoundedSemaphore
+        ms = spec["after_release_ms"]
+
+        class SlowSemaphore(object):
+            def __init__(self, value=1):
+                self._s = real_sem(value=value)
+                self._r = random.Random(f"c20-sem:{seed}:{spec.get('schedule', 0)}")
+
+            def acquire(self, *a, **k):
+                return self._s.acquire(*a, **k)
+
+            def release(self):
+                self._s.release()
+                if self._r.random() < 0.5:
+                    time.sleep(ms / 1000.0 * self._r.random())
+        mpm.multiprocessing.BoundedSemaphore = SlowSemaphore
     # arrival orders seen by the mediator
     orig_wait = mpm.connection.wait
     sig = STATE.setdefault("arrival", {"orders": set(), "multi": 0, "calls": 0})
